@@ -1,6 +1,6 @@
 (** C10 - the round trip writer -> rocfl's reader for every string position of an
     inventory, and the accepted inputs of create_object / cp / commit. *)
-From Rocfl Require Import Base.Bytes Model.VersionNum Model.Json Model.KnownC10 Generated.Consts
+From Rocfl Require Import Base.Bytes Model.VersionNum Model.Json Generated.Consts
   Proofs.BytesFacts Proofs.VersionNumFacts Proofs.JsonFacts Proofs.JsonPathFacts.
 From Coq Require Import Lia.
 Open Scope N_scope.
@@ -110,10 +110,10 @@ Qed.
     decoder followed by the position's visitor, except for an escaped spelling of head / a
     version key *)
 Lemma main_read_conforming p t :
-  c10_foreign_escaped_version_name p t = false ->
+  escaped_version_name_token p t = false ->
   main_read_pos p t = match decode_string t with Some s => post_visit p s | None => None end.
 Proof.
-  unfold c10_foreign_escaped_version_name, main_read_pos, read_with, read_borrowed.
+  unfold escaped_version_name_token, main_read_pos, read_with, read_borrowed.
   destruct (main_pos_borrowed p); cbn [andb]; [|reflexivity].
   intros ->. destruct (decode_string t); reflexivity.
 Qed.
@@ -121,20 +121,20 @@ Qed.
 Lemma main_read_conforming_outside_versions p t :
   main_pos_borrowed p = false ->
   main_read_pos p t = match decode_string t with Some s => post_visit p s | None => None end.
-Proof. intros B. apply main_read_conforming. unfold c10_foreign_escaped_version_name. now rewrite B. Qed.
+Proof. intros B. apply main_read_conforming. unfold escaped_version_name_token. now rewrite B. Qed.
 
-Lemma main_read_foreign_escaped_version_refused p t :
-  c10_foreign_escaped_version_name p t = true -> main_read_pos p t = None.
+Lemma main_read_escaped_version_name_refused p t :
+  escaped_version_name_token p t = true -> main_read_pos p t = None.
 Proof.
-  unfold c10_foreign_escaped_version_name, main_read_pos, read_with, read_borrowed. intros H.
+  unfold escaped_version_name_token, main_read_pos, read_with, read_borrowed. intros H.
   apply andb_true_iff in H as [-> ->]. destruct (decode_string t); reflexivity.
 Qed.
 
 (** rocfl never writes a token of that class *)
-Lemma written_token_not_foreign_class p s :
-  pos_value_ok p s = true -> c10_foreign_escaped_version_name p (serde_escape s) = false.
+Lemma written_token_not_escaped_version_name p s :
+  pos_value_ok p s = true -> escaped_version_name_token p (serde_escape s) = false.
 Proof.
-  intros V. unfold c10_foreign_escaped_version_name. rewrite has_escape_serde.
+  intros V. unfold escaped_version_name_token. rewrite has_escape_serde.
   destruct (main_pos_borrowed p) eqn:B; [|reflexivity]. cbn [andb]. now apply (version_name_never_escaped p).
 Qed.
 
